@@ -31,6 +31,12 @@ pub struct Layout {
     /// FAT sectors beyond what the sector count needs (all FREESECT, listed in the
     /// DIFAT): an over-provisioned FAT is legal.
     pub spare_fat: usize,
+    /// Header minor version (SHOULD be 0x3E; other writers use 0x3B, 0x21, ...).
+    pub minor_version: u16,
+    /// Paint the top node of a sibling tree red where that creates no red-red edge inside
+    /// the tree (its children are black or absent).  The crate validates colours per edge
+    /// of a sibling tree only.
+    pub red_tops: bool,
 }
 
 impl Layout {
@@ -46,11 +52,13 @@ impl Layout {
             min_total_sectors: 0,
             dirty_slack: rng.chance(1, 3),
             spare_fat: *rng.pick(&[0usize, 0, 0, 1, 2]),
+            minor_version: *rng.pick(&[0x3Eu16, 0x3E, 0x3E, 0x3E, 0x3B, 0x21, 0x3F, 0]),
+            red_tops: rng.chance(1, 6),
         }
     }
     /// The layout family the library's own writer produces (used as a control).
     pub fn canonical(version: u16) -> Layout {
-        Layout { version, free_pct: 0, dir_gap_pct: 0, free_mini_pct: 0, permute_sectors: false, permute_chains: false, rb_trees: false, min_total_sectors: 0, dirty_slack: false, spare_fat: 0 }
+        Layout { version, free_pct: 0, dir_gap_pct: 0, free_mini_pct: 0, permute_sectors: false, permute_chains: false, rb_trees: false, min_total_sectors: 0, dirty_slack: false, spare_fat: 0, minor_version: 0x3E, red_tops: false }
     }
 }
 
@@ -278,6 +286,14 @@ pub fn synthesize(model: &Model, layout: &Layout, rng: &mut Rng) -> (Vec<u8>, Fe
                 }
             }
             flats[i].child = flats[tree_to_flat[t.root]].slot;
+            if layout.red_tops {
+                let top = &t.n[t.root];
+                let black = |x: usize| x == NIL || !t.n[x].red;
+                if black(top.left) && black(top.right) {
+                    flats[tree_to_flat[t.root]].red = true;
+                    feat.red_nodes = true;
+                }
+            }
             feat.max_tree_depth = feat.max_tree_depth.max(t.depth(t.root));
         } else {
             // all-black degenerate chain in order (what the library writes for ascending inserts)
@@ -422,7 +438,7 @@ pub fn synthesize(model: &Model, layout: &Layout, rng: &mut Rng) -> (Vec<u8>, Fe
     // ---- 8. write
     let mut out = vec![0u8; (total + 1) * sl];
     out[..8].copy_from_slice(&MAGIC);
-    wr16(&mut out, 24, 0x3E);
+    wr16(&mut out, 24, layout.minor_version);
     wr16(&mut out, 26, layout.version);
     wr16(&mut out, 28, 0xFFFE);
     wr16(&mut out, 30, if layout.version == 3 { 9 } else { 12 });
@@ -563,6 +579,8 @@ pub const SYNTH_NAMES: &[&str] = &[
     "_a", "a_", "[b", "]b", "^b", "`b", "B_", "b^", "__SRP_0", "Module1", "_VBA_PR", "ThisWor", "{c", "~c", "@c", "Ab", "aB", "ZZ", "zy",
     "a\0", "ab\0\0", "\0", "\0a",
     "\u{1c5}a", "\u{1c4}b", "\u{1c8}x", "\u{1c7}y", "\u{1f2}m", "\u{1f1}n", "\u{1fb6}", "\u{1f80}", "\u{1f84}", "\u{1ff3}", "\u{1ff6}", "\u{1fc3}", "\u{1fc6}",
+    "\u{65e5}\u{672c}\u{8a9e}\u{306e}\u{6587}\u{66f8}\u{540d}\u{524d}\u{9577}\u{3044}\u{65e5}\u{672c}\u{8a9e}\u{306e}\u{6587}\u{66f8}\u{540d}\u{524d}\u{9577}\u{3044}\u{65e5}\u{672c}\u{8a9e}\u{306e}\u{6587}\u{66f8}\u{540d}\u{524d}\u{9577}\u{3044}\u{7d42}",
+    "\u{2126}", "\u{3c9}", "\u{212b}", "\u{e5}", "\u{1e9e}", "\u{3f4}", "\u{3b8}", "\u{212a}", "k", "\u{1F680}", "n\u{1F600}", "n\u{1F680}", "\u{10400}", "\u{10401}",
 ];
 
 /// A root holding the given streams (and nothing else).
@@ -576,6 +594,44 @@ pub fn flat_model(items: &[(String, Vec<u8>)]) -> Model {
     m
 }
 
+/// Lengthens the chains of up to two mini streams by one free mini sector each (filled with
+/// garbage), as a writer does that shortens a stream by updating only its length.  Both
+/// open modes accept that; it is applied after the image passed its self-check.
+pub fn overlong_mini_chains(bytes: &mut [u8], rng: &mut Rng) -> usize {
+    let img = match crate::refparse::parse(bytes) {
+        Ok(i) => i,
+        Err(_) => return 0,
+    };
+    let root_size = img.entries.first().map(|e| e.size).unwrap_or(0);
+    let n_mini = (root_size / 64) as usize;
+    let mut free: Vec<u32> = (0..img.minifat.len().min(n_mini) as u32).filter(|&m| img.minifat[m as usize] == FREE).collect();
+    let mut done = 0;
+    let minis: Vec<&crate::refparse::RawEntry> = img.entries.iter().filter(|e| e.obj_type == 2 && e.size > 0 && e.size < 4096).collect();
+    for e in minis.iter().take(8) {
+        if free.is_empty() || done >= 2 {
+            break;
+        }
+        if !rng.chance(1, 2) {
+            continue;
+        }
+        let mut probs = Vec::new();
+        let chain = img.mini_chain(e.start, "stream", &mut probs);
+        let (last, m) = match (chain.last(), free.pop()) {
+            (Some(&l), Some(m)) => (l, m),
+            _ => break,
+        };
+        if let (Some(o_last), Some(o_m), Some(data)) = (img.minifat_cell_off(last as usize), img.minifat_cell_off(m as usize), img.mini_sector_off(m)) {
+            wr32(bytes, o_last, m);
+            wr32(bytes, o_m, END);
+            for (i, b) in bytes[data..data + 64].iter_mut().enumerate() {
+                *b = 0xC1 ^ (i as u8);
+            }
+            done += 1;
+        }
+    }
+    done
+}
+
 /// A session on a synthesised image of `model` whose unowned bytes carry garbage
 /// (`Layout::dirty_slack`); None if the image fails its self-check or does not open
 /// (never a verdict: the caller falls back to a fresh file).
@@ -584,9 +640,31 @@ pub fn dirty_foreign_session(model: &Model, version: cfb::Version, bufsize: Opti
     layout.version = if version == cfb::Version::V3 { 3 } else { 4 };
     layout.dirty_slack = true;
     layout.spare_fat = 0;
-    let (bytes, _f) = synthesize(model, &layout, rng);
+    // half of the images keep their sectors in order, so that the file often ends with the
+    // tail of a stream; such a file may end right after its last used byte
+    if rng.chance(1, 2) {
+        layout.permute_sectors = false;
+        layout.free_pct = 0;
+    }
+    let (mut bytes, _f) = synthesize(model, &layout, rng);
     if crate::props::foreign::self_check(model, &bytes).is_err() {
         return None;
+    }
+    if rng.chance(1, 2) {
+        if let Ok(img) = crate::refparse::parse(&bytes) {
+            let last = img.nsect as u32 - 1;
+            let mut probs = Vec::new();
+            for e in img.entries.iter().filter(|e| e.obj_type == 2 && e.size >= 4096 && e.size % img.sector_len as u64 != 0) {
+                let chain = img.chain(e.start, "stream", &mut probs);
+                if chain.last() == Some(&last) {
+                    bytes.truncate(img.sector_off(last) + (e.size % img.sector_len as u64) as usize);
+                    break;
+                }
+            }
+        }
+    }
+    if rng.chance(1, 2) {
+        overlong_mini_chains(&mut bytes, rng);
     }
     let mode = if rng.chance(1, 2) { crate::engine::Mode::Strict } else { crate::engine::Mode::Permissive };
     crate::engine::Session::open_bytes(bytes, mode, bufsize, model.clone()).ok()
